@@ -328,6 +328,16 @@ def run(corrupt=None):
         ck.model_drift("recorded conditional-SMC swarms are not a behaviour of PGibbsSM (start %s)" % json.dumps(tr["s0"]))
     ck.extra["swarm_traces_recorded"] = total
     graft_histories(ck)
+    # the run loop: every recorded entry is a tree over all data points (Chain.tla EntriesWhole); an SMC pass of the burn-in
+    # that may stop when the time limit is used up (deviation InterruptibleSMC) is refuted
+    from .. import chainlib
+    rc_ = chainlib.model_check_chain("c07_chain")
+    tlc.require_ok(rc_, "Chain model (EntriesWhole)")
+    ck.add_tlc("Chain.tla over 2592 option records: every recorded entry holds all data points", rc_)
+    rn_ = chainlib.model_check_chain("c07_chain_int", interruptible=True)
+    ck.add_tlc("DEV a burn-in SMC pass may stop when the time limit is used up (must violate EntriesWhole)", rn_, must_fail=True)
+    if "EntriesWhole" not in rn_.violated:
+        raise tlc.TLCError("deviation not refuted: %s" % rn_.summary())
     library_driving(ck, thorough)
     c06.extract_then_edit(ck, "C07", 4)
     # --- seeded end-to-end chains
